@@ -24,6 +24,7 @@
 import concurrent.futures as cf
 import json
 import os
+import re
 import shutil
 import subprocess
 import time
@@ -166,7 +167,18 @@ def build_programs(tier, seed):
     progs += U.mutated_pass_programs(vlib.rng(seed, "c16-mut"), 6 if tier == "quick" else 40)
     fam = U.family_programs()
     if tier == "quick":
-        fam = r.sample(fam, 2500)
+        # stratified: every (stage, error kind) keeps at least 3 of its surroundings
+        groups = {}
+        for q in fam:
+            groups.setdefault("/".join(q.name.split("/")[:3]), []).append(q)
+        fam = []
+        rest = []
+        for g in sorted(groups):
+            lst = groups[g]
+            r.shuffle(lst)
+            fam += lst[:3]
+            rest += lst[3:]
+        fam += r.sample(rest, max(0, min(len(rest), 2500 - len(fam))))
     progs += fam
     # call chains: pure (n calls => n entries, decided by the specification) and mixed
     kinds = ["call", "field", "item", "var"]
@@ -345,17 +357,20 @@ def render_part(chk, tier, seed, failing, crop, stdlib, scratch):
     maxn = max(n for n, _ in crop)
     chains = [f for f in failing if f[0].family in ("chain", "chain-mixed")]
     others = [f for f in failing if f[0].family not in ("chain", "chain-mixed")]
-    nother = 110 if tier == "quick" else 2600
-    # every family and stage is represented: sample per family
-    byfam = {}
+    # every family and every error kind of the family generator is represented
+    groups = {}
     for f in others:
-        byfam.setdefault(f[0].family, []).append(f)
+        nm = f[0].name.split("/")
+        key = "/".join(nm[:3]) if nm[0] == "fam" else f[0].family
+        groups.setdefault(key, []).append(f)
     chosen = []
-    fams = sorted(byfam)
-    quota = max(1, nother // max(1, len(fams)))
-    for fam in fams:
-        lst = byfam[fam]
-        chosen += r.sample(lst, min(len(lst), quota))
+    for g in sorted(groups):
+        lst = groups[g]
+        if g.startswith("fam/"):
+            k = 1 if tier == "quick" else 12
+        else:
+            k = 40 if tier == "quick" else 600
+        chosen += r.sample(lst, min(len(lst), k))
     plan = []      # (prog, res, known, t)
     for f in chains:
         n = len(f[1]["err"].get("trace", []))
@@ -418,8 +433,11 @@ def render_part(chk, tier, seed, failing, crop, stdlib, scratch):
             continue
         if "panicked at" in text or rc not in (0, 1, 2):
             chk.count(key=[p.name, args, colour], nontrivial=False)
-            chk.disagree(dict(sig0, **{"class": "crash"}),
-                         f"{p.name} {args} colour={colour}: exit {rc}, stderr {text[-400:]!r}", payload)
+            m = re.search(r"panicked at ([^\n]*?):\d+:\d+:\n([^\n]*)", text)
+            msg = (os.path.basename(m.group(1)) + ": " + m.group(2)) if m else f"exit {rc}"
+            chk.disagree(dict(sig0, **{"class": "crash", "msg": msg[:160]}),
+                         f"{p.name} {args} colour={colour}: the binary exits {rc} on {p.src[:80]!r}: "
+                         f"{text.strip()[:300]!r}", payload)
             continue
         if colour:
             text = U.SGR_RE.sub("", text)
@@ -544,17 +562,15 @@ def render_part(chk, tier, seed, failing, crop, stdlib, scratch):
 
 
 # ---------------------------------------------------------------------------
-# Apalache: pack/unpack arithmetic over unbounded integers (thorough only)
+# Apalache: pack/unpack arithmetic over unbounded integers (in the background of the check)
 
 def apalache_start(tier):
-    if tier == "quick":
-        return None
     d = vlib.workdir("c16", "apalache")
     shutil.rmtree(d, ignore_errors=True)
     os.makedirs(d)
     log = open(os.path.join(d, "apalache.log"), "w")
     try:
-        p = subprocess.Popen(["timeout", "900", "apalache-mc", "check", "--init=Init", "--next=Next",
+        p = subprocess.Popen(["timeout", "300" if tier == "quick" else "900", "apalache-mc", "check", "--init=Init", "--next=Next",
                               "--inv=Inv", "--length=1", f"--out-dir={d}/out", f"--run-dir={d}/run",
                               os.path.join(vlib.SPEC, "SpansArith.tla")],
                              cwd=d, stdout=log, stderr=subprocess.STDOUT)
@@ -617,9 +633,15 @@ def run(tier, seed):
     shutil.rmtree(scratch, ignore_errors=True)
     os.makedirs(scratch)
     try:
+        t0 = time.time()
         crop = spans_part(chk, tier, seed)
+        vlib.log(f"[C16] span table part {time.time()-t0:.1f}s")
+        t0 = time.time()
         failing = errors_part(chk, tier, seed, stdlib)
+        vlib.log(f"[C16] error span part {time.time()-t0:.1f}s")
+        t0 = time.time()
         render_part(chk, tier, seed, failing, crop, stdlib, scratch)
+        vlib.log(f"[C16] render part {time.time()-t0:.1f}s")
         apalache_finish(chk, apal)
     finally:
         shutil.rmtree(scratch, ignore_errors=True)
